@@ -78,6 +78,11 @@ func (dm *DriverMethod) NilRisk() bool {
 				risk = true
 			}
 		}
+		// a pointer handed to a converter that is itself a generated function: that function expects a
+		// non-nil operand (same family as the open nil finding: nil on an explicit source path)
+		if strings.HasPrefix(a.Converter, "Convert") {
+			risk = true // the callee runs on the caller's value set and may have nil-risk paths of its own
+		}
 		if a.Conv == "stringer" || a.ArgConv == "stringer" {
 			switch a.Src.Type.Underlying().(type) {
 			case *types.Pointer, *types.Interface:
